@@ -30,7 +30,8 @@ func (c11) Meta() fw.Meta {
 			"oracle (independent slot-wise sum of library fetches at the clock printed per item): after sum-copy exit 0 every destination (created with the requested header when absent) equals the sum in every selected archive and slot of the window, NaN included; the immediately following sum-diff exits 0; " +
 			"then k>=1 destination slots of ONE item (first, middle or last in glob order) are perturbed with the library (value->other, value->NaN, NaN->value) and sum-diff must exit 1 and list exactly the slots in which that destination now deviates from the sum, with both values. " +
 			"non-trivial = scenario where sum-copy had to write at least one slot and leave at least one equal slot, and the perturbed item is not the last one; distinct by scenario." +
-			" Odd cases send the final sum-diff listing to a -text-out file; even cases then delete all sources of an EARLIER item and require the deviating slots of the perturbed item to be listed still.",
+			" Odd cases send the final sum-diff listing to a -text-out file; even cases then delete all sources of an EARLIER item and require the deviating slots of the perturbed item to be listed still." +
+			" Every 4th case reads its sources through a server (nested items included); in even cases the first file of grpF is locked for 300 ms during sum-copy.",
 		Assumptions: []string{
 			"the oracle uses the per-item clock printed by the commands",
 			"behaviour of sum-diff for a missing destination is not specified by the property (only C16 applies)",
